@@ -340,7 +340,7 @@ impl Property for ScenarioProp {
                 // only valid if ops do not carry graph-shaped data: skip when they do
                 let shaped = sc.clients.iter().any(|c: &Client| {
                     c.ops.iter().any(|o| {
-                        matches!(o, Op::SampleX { .. } | Op::SampleRng { .. } | Op::Aborted { .. } | Op::AbortedRng { .. } | Op::Repeat { .. } | Op::Alt(_))
+                        matches!(o, Op::SampleX { .. } | Op::SampleRng { .. } | Op::Aborted { .. } | Op::AbortedAny { .. } | Op::AbortedRng { .. } | Op::Burst { .. } | Op::Repeat { .. } | Op::Alt(_))
                     })
                 });
                 if shaped {
